@@ -10,6 +10,7 @@ KernelSet == SeqsUpTo(SeqsUpTo(MinN..MaxN, MinW, MaxW), MinB, MaxB)
 Sh(sm_, sub_) == [sm |-> sm_, sub |-> sub_]
 Shapes_small == {<<Sh(1, 1)>>, <<Sh(1, 2)>>, <<Sh(2, 1)>>, <<Sh(1, 1), Sh(1, 1)>>}
 Shapes_par == {<<Sh(2, 2)>>, <<Sh(1, 2), Sh(2, 1)>>}
+Shapes_q == {<<Sh(1, 2)>>, <<Sh(2, 1)>>}
 Shapes_wide == {<<Sh(3, 1)>>, <<Sh(1, 3)>>}
 
 MCInit == \E sh \in Shapes : S = InitState(sh, <<>>)
